@@ -25,7 +25,7 @@ DIST_CELLS = [
     ("nball", "G2n", {"latent_prior": "uniform_nball"}, True, "flow"),
     ("nball-worst-point", "G2u", {"latent_prior": "uniform_nball", "constant_volume_mode": False}, True, "flow"),
     ("accumulate-weights", "G2n", {"accumulate_weights": True}, True, "flow"),
-    ("accumulate-weights-many-batches", "G2u", {"accumulate_weights": True, "drawsize": 500}, True, "flow"),
+    ("accumulate-weights-many-batches", "G2u", {"accumulate_weights": True, "drawsize": 100}, True, "flow"),
     ("truncate-log-q", "G2n", {"truncate_log_q": True}, True, "flow"),
     ("logit-reparam", "G2n", {"reparameterisations": {"x0": "logit", "x1": "logit"}}, True, "flow"),
     ("drawsize-200", "G2n", {"drawsize": 200}, True, "flow"),
@@ -138,7 +138,10 @@ def dist_worker(case):
             return res
         names = list(model.names)
         k = 2 * (len(names) + 2)
-        delta = batches[0] / len(pool)
+        # forced acceptances: one per batch (each batch is normalised by its own maximum weight); with accumulate_weights there is a single global
+        # normalisation constant, hence a single forced acceptance for the whole pool
+        forced = 1 if prop.accumulate_weights else batches[0]
+        delta = forced / len(pool)
         # Mechanism predicate for the known finding D13: when the contour keeps (almost) the whole latent Gaussian — no truncation, or a radius beyond
         # the 99 % mass radius — the weights prior/q are unbounded in the tails and per-batch max-normalised rejection sampling is no longer exact.
         mass = float(stats.chi.cdf(prop.r * prop.fuzz, df=z.shape[1])) if truncated and prop.latent_prior == "truncated_gaussian" else (0.0 if truncated else 1.0)
@@ -156,7 +159,7 @@ def dist_worker(case):
         pa, ra = pool["logL"] > Lw, refin["logL"] > Lw
         if pa.sum() > 500 and ra.sum() > 2000:
             # forced acceptances that fall inside the restriction are bounded by the number of batches
-            delta_r = batches[0] / pa.sum()
+            delta_r = forced / pa.sum()
             for nm, a, b in [(n_, pool[n_][pa], refin[n_][ra]) for n_ in names] + [("logL", pool["logL"][pa], refin["logL"][ra])]:
                 D = ks2(a, b)
                 thr = ks_threshold(len(a), len(b), k, delta_r)
